@@ -131,13 +131,16 @@ class Expander:
                 pre, binds = [], []
                 for p, a in zip(params, st[2]):
                     if a[0] == "expr":
-                        t = self.fresh()
-                        pre.append(("raw", f"{t} = {a[1]}"))
-                        binds.append(("raw", f"{p} = {t}"))
                         try:
                             inner_consts[p] = _const_eval(a[1], consts)
+                            # value known while the program is expanded: bound right away (`:=`), so that
+                            # the body's own `:=` / `.if` / `.for` see it, as with a macro parameter
+                            binds.append(("raw", f"{p} := {inner_consts[p]}"))
                         except Undecidable:
                             inner_consts.pop(p, None)
+                            t = self.fresh()
+                            pre.append(("raw", f"{t} = {a[1]}"))
+                            binds.append(("raw", f"{p} = {t}"))
                         inner_code.pop(p, None)
                         inner_exprs[p] = "(" + self._subst(a[1], exprs) + ")"
                     else:
@@ -170,7 +173,7 @@ class Expander:
                     c2[st[1]] = i
                     e2 = dict(exprs)
                     e2.pop(st[1], None)
-                    out.append(("block", [("raw", f"{st[1]} = {i}")] + self.expand(st[4], c2, code, depth + 1, e2)))
+                    out.append(("block", [("raw", f"{st[1]} := {i}")] + self.expand(st[4], c2, code, depth + 1, e2)))
             elif k == "block":
                 out.append(("block", self.expand(st[1], consts, code, depth + 1, exprs)))
             elif k == "scope":
